@@ -42,19 +42,68 @@ def screen_sites(ctx):
             if target is None or SCREEN_Q not in R.mro(target):
                 # `cls(...)` inside a classmethod of Screen
                 continue
-            kw = {}
-            for i, a in enumerate(call.args):
-                if isinstance(a, ast.Starred) or i >= len(params):
-                    raise AnalysisError(f"{f.site()}: Screen(...) with star/extra positional args")
-                kw[params[i]] = a
-            for k in call.keywords:
-                if k.arg is None:
-                    raise AnalysisError(f"{f.site()}: Screen(**kwargs) cannot be analysed")
-                kw[k.arg] = k.value
-            out.append(ScreenSite(f, call, n, kw))
+            kw = call_keywords(R, f, call, params)
+            site = ScreenSite(f, call, n, kw if kw is not None else {})
+            site.opaque = kw is None
+            out.append(site)
             n += 1
     out.sort(key=lambda s: (s.f.qname, s.ordinal))
     return out
+
+
+def call_keywords(R, f, call, params):
+    """{parameter: value expr} of a call, expanding `**{...}` dict literals and the idiom
+    `**{name: getattr(obj, name) for name in CONSTANT_TUPLE}`; None if the call cannot be expanded"""
+    kw = {}
+    for i, a in enumerate(call.args):
+        if isinstance(a, ast.Starred) or i >= len(params):
+            return None
+        kw[params[i]] = a
+    for k in call.keywords:
+        if k.arg is not None:
+            kw[k.arg] = k.value
+            continue
+        v = k.value
+        if isinstance(v, ast.Dict) and all(isinstance(x, ast.Constant) and isinstance(x.value, str) for x in v.keys):
+            for kk, vv in zip(v.keys, v.values):
+                kw[kk.value] = vv
+            continue
+        if isinstance(v, ast.DictComp) and len(v.generators) == 1 and not v.generators[0].ifs and isinstance(v.generators[0].target, ast.Name) \
+                and isinstance(v.key, ast.Name) and v.key.id == v.generators[0].target.id:
+            var = v.key.id
+            it = v.generators[0].iter
+            names = None
+            if isinstance(it, (ast.Tuple, ast.List)):
+                names = it
+            elif isinstance(it, ast.Name):
+                names = R.const_value(f.mod, it.id)
+            if isinstance(names, (ast.Tuple, ast.List)) and all(isinstance(x, ast.Constant) and isinstance(x.value, str) for x in names.elts) \
+                    and isinstance(v.value, ast.Call) and call_name(v.value) == "getattr" and len(v.value.args) == 2 and U(v.value.args[1]) == var:
+                obj = v.value.args[0]
+                for x in names.elts:
+                    kw[x.value] = ast.Attribute(value=obj, attr=x.value, ctx=ast.Load())
+                continue
+        return None
+    return kw
+
+
+def returned_screen_kw(ctx, f):
+    """keyword table of the Screen(...) that function f returns, looking through one straight-line repository helper"""
+    from engine.astutil import returns, inline_calls
+    sites = [s for s in screen_sites(ctx) if s.f.qname == f.qname]
+    if len(sites) == 1 and not sites[0].opaque:
+        return sites[0].kw, sites[0].site
+    if sites:
+        raise AnalysisError(f"{f.site()}: {len(sites)} Screen(...) constructions / unexpandable **kwargs")
+    rets = returns(f.node)
+    if len(rets) != 1:
+        raise AnalysisError(f"{f.site()}: no Screen(...) construction and no single return")
+    e = inline_calls(rets[0].value, ctx.R, f.mod)
+    if isinstance(e, ast.Call) and isinstance(e.func, ast.Name) and ctx.R.chase(f.mod, e.func.id) == SCREEN_Q:
+        kw = call_keywords(ctx.R, f, e, screen_init_params(ctx))
+        if kw is not None:
+            return kw, f"{f.site()}::Screen(...) via helper"
+    raise AnalysisError(f"{f.site()}: the returned screen is not a Screen(...) construction (directly or through a straight-line helper)")
 
 
 def is_path(e):
